@@ -5,8 +5,9 @@
     * needs ANY number n ≥ 1 of `send()` calls ("chunks") for a frame — `Env.more t i` = n - 1 is the
       number of chunks before the last one, for the frame of call `i` of thread `t` (the write lock is
       held across the whole `sendall`; every chunk is a separate schedule entry, so other threads run
-      between any two chunks), and
-    * may FAIL: `Env.failAt t i = some k` makes the `sendall` of call `i` of thread `t` raise once `k`
+      between any two chunks),
+    * fails on a socket that has been shut (`sockShut`, as in `Model/Threads.lean`: every `send()` raises), and
+    * may be told to FAIL: `Env.failAt t i = some k` makes the `sendall` of call `i` of thread `t` raise once `k`
       chunks of the frame are on the wire (`k = 0`: nothing written; `k ≤ more`: a torn frame).  The
       exception is `TransportFail` (`Err.transport`); it leaves `with self._lock:` through the release
       (`toRelease`) — in `write(data, closing=True)` it skips the `closing = True` under the lock —, is
@@ -18,7 +19,7 @@
   nothing — a 1-chunk `sendall`), `write2` writes the last chunk.  How many chunks of the frame in
   progress are out is read off the wire (`sentOf`).
 
-  `Model/Threads.lean` is the instance `more = 1`, no failure (`execN_default`, `runN_default`), which
+  `Model/Threads.lean` is the instance `more = 1`, no injected failure (`execN_default`, `runN_default`), which
   is what the driver runs by default; with `n=` / `fail=` keys the driver runs this file.
 -/
 import Lomond.Model.Threads
@@ -39,20 +40,18 @@ structure Env where
 def sentOf (w : List Chunk) (t : Tid) (i : Nat) : Nat :=
   (w.filter (fun x => x.tid = t && x.idx = i)).length
 
-/-- `self._sock.sendall(data)` raises: `TransportFail`, out of the `with` block through the release -/
-def failWrite (r : List Step) (sh : Shared) (c : Cur) : Shared × Cur :=
-  (sh, { c with rest := toRelease r, err := some .transport })
-
 /-- the chunks before the last one -/
 def execW1 (env : Env) (t : Tid) (f : FrameSrc) (r : List Step) (sh : Shared) (c : Cur) : Shared × Cur :=
-  if env.failAt t c.idx = some (sentOf sh.wire t c.idx) then failWrite r sh c
+  if sh.sockShut then failWrite r sh c
+  else if env.failAt t c.idx = some (sentOf sh.wire t c.idx) then failWrite r sh c
   else if env.more t c.idx = 0 then (sh, { c with rest := r })
   else ({ sh with wire := sh.wire ++ [⟨t, c.idx, false, descOf f c⟩] },
         { c with rest := if sentOf sh.wire t c.idx + 1 < env.more t c.idx then .write1 f :: r else r })
 
 /-- the last chunk -/
 def execW2 (env : Env) (t : Tid) (f : FrameSrc) (r : List Step) (sh : Shared) (c : Cur) : Shared × Cur :=
-  if env.failAt t c.idx = some (sentOf sh.wire t c.idx) then failWrite r sh c
+  if sh.sockShut then failWrite r sh c
+  else if env.failAt t c.idx = some (sentOf sh.wire t c.idx) then failWrite r sh c
   else ({ sh with wire := sh.wire ++ [⟨t, c.idx, true, descOf f c⟩] }, { c with rest := r, wrote := true })
 
 def execN (env : Env) (v : Variant) (t : Tid) (st : Step) (r : List Step) (sh : Shared) (c : Cur) : Shared × Cur :=
